@@ -34,6 +34,10 @@ def _cases(tier):
                 for fl in FIELD_LISTS:
                     for sec in seconds:
                         yield {"seam": "lib", "pos": pos, "keys": ks, "dkr": rl, "dkf": fl, "second": sec}
+            # compiled patterns carrying flags (and the same text with and without a flag)
+            for rl in ([[r"a\d", "I"]], [[r"[ab]\d", "I"], r"xx"], [r"a\d", [r"a\d", "I"]]):
+                for fl in ([], ["m"]):
+                    yield {"seam": "lib", "pos": pos, "keys": ks, "dkr": rl, "dkf": fl, "second": "none"}
     # CLI seam: anchoring separates prefix match from full match
     for pos in POSITIONS:
         for ks in KEYSETS:
@@ -67,13 +71,20 @@ def _samples(case):
     return out
 
 
+def _rx(p):
+    """a pattern spec is a string or [pattern, "I"] = compiled with re.IGNORECASE (library seam only)"""
+    if isinstance(p, (list, tuple)):
+        return re.compile(p[0], re.I if "I" in p[1] else 0)
+    return re.compile(p)
+
+
 def classify(o, direct, pats, full):
     if not o:
         return "mapping"
     if direct:
         return "mapping"
     for p in pats:
-        rx = re.compile(p)
+        rx = _rx(p)
         if all((rx.fullmatch(k) if full else rx.match(k)) for k in o):
             return "mapping"
     return "model"
@@ -202,12 +213,13 @@ def _run_cli(samples, dkr, dkf):
 
 def execute(case):
     samples = _samples(case)
-    shape = ["pos:" + case["pos"], "keys:" + "+".join(case["keys"])] + ["re:" + p for p in case["dkr"]] + ["dkf:" + f for f in case["dkf"]] \
+    shape = ["pos:" + case["pos"], "keys:" + "+".join(case["keys"])] + ["re:" + (p if isinstance(p, str) else p[0] + "/" + p[1]) for p in case["dkr"]] + ["dkf:" + f for f in case["dkf"]] \
         + ["second:" + case["second"]]
     full = case["seam"] == "cli"
     try:
         if case["seam"] == "lib":
-            b = pipeline.build(samples, types=pipeline.DEFAULT_TYPES, dkr=case["dkr"] or None, dkf=case["dkf"] or None)
+            b = pipeline.build(samples, types=pipeline.DEFAULT_TYPES, dkr=[(_rx(p) if isinstance(p, list) else p) for p in case["dkr"]] or None,
+                               dkf=case["dkf"] or None)
             root, reg, text = b.root, b.reg, None
         else:
             root, reg, text = _run_cli(samples, case["dkr"], case["dkf"])
